@@ -456,7 +456,7 @@ func init() {
 				}
 				// cost guard (see record-find)
 				runes := []rune(string(b))
-				if cheapest(func() { re.FindRunesMatch(runes) }) > 40_000 || (exact && probe.heavy(runes, isRTL)) {
+				if cheapest(func() { re.FindRunesMatch(runes) }) > 40_000 || probe.heavy(runes, isRTL) {
 					skipped++
 					continue
 				}
